@@ -38,7 +38,7 @@ def obeys (p : Prot) (a : Access) : Bool :=
   | .callUnder allowed => if a.how == "call" then a.held.all allowed.contains else (!a.write || ctors.contains a.fn)
   | .atomic => a.how == "atomic"
   | .lock => a.how == "lockop" || !a.write
-  | .chan => a.how == "chan-recv" || a.how == "chan-close" || a.how == "chan" || !a.write || a.held != []
+  | .chan => a.how == "chan-recv" || a.how == "chan-close" || a.how == "chan-send" || a.how == "chan" || !a.write || a.held != []
   | .published ws rs => if a.write then ws.contains a.fn else (rs.contains a.fn || ws.contains a.fn)
 
 /-- the protections table (DESIGN.md appendix G), keyed by struct and field -/
@@ -214,6 +214,19 @@ def waitGroups : List (String × String) := [("ReverseTunnelServer", "wg")]
 
 def lockedWaitViolations (t : List Access) : List Access :=
   t.filter (fun a => waitGroups.contains (a.strct, a.field) && a.how == "call" && a.method == "Wait" && !a.held.isEmpty)
+
+/-! ### wake-ups: the waker must not need a lock the sleeper holds -/
+
+/-- rows that close (or send on) a channel while holding a mutex that some function holds while it WAITS on that
+    very channel: the waiter sleeps with the lock, the waker sleeps for the lock — a deadlock.  (The revision-zero
+    receiver's `accept` waits on `closed` holding `ingestMu`: `close()` must close `closed` BEFORE it takes `ingestMu`.) -/
+def wakeupViolations (t : List Access) : List Access :=
+  t.filter (fun a => (a.how == "chan-close" || a.how == "chan-send") &&
+    t.any (fun b => b.strct == a.strct && b.field == a.field && b.how == "chan-recv" && b.held.any a.held.contains))
+
+/-- the waits that are made with a lock held at all (so that the obligation is not vacuous) -/
+def lockedChanWaits (t : List Access) : List Access :=
+  t.filter (fun b => b.how == "chan-recv" && !b.held.isEmpty)
 
 /-! ### atomic operations behind the actions of the L-atomic flow-control model -/
 
